@@ -235,7 +235,7 @@ theorem smallReqs_ok {α} (script : Nat → List Resp) (hs : ∀ i, (attempts (s
   | cons p rest ih =>
     intro i
     have := ih (i + 1)
-    simp only [smallReqs, hs i, if_true, List.map_cons, List.length_cons, List.range'_succ]
+    simp only [smallReqs, hs i, Facts.C32.smallPartIsModLimit, if_true, List.map_cons, List.length_cons, List.range'_succ]
     refine ⟨by rw [this.1], ?_, by rw [this.2.2]⟩
     intro q hq
     rcases List.mem_cons.mp hq with h | h
@@ -256,7 +256,7 @@ theorem bigReqs_spec {α} (script : Nat → List Resp) (tp : Int) (n : Nat) (ls 
   | cons p rest ih =>
     intro i
     have := ih (i + 1)
-    simp only [bigReqs, List.map_cons, List.length_cons, List.range'_succ]
+    simp only [bigReqs, Facts.C32.bigPartIsCounter, if_true, List.map_cons, List.length_cons, List.range'_succ]
     refine ⟨by rw [this.1], by rw [this.2.1], ?_⟩
     intro q hq
     rcases List.mem_cons.mp hq with h | h
@@ -361,7 +361,8 @@ theorem upload_exact_lemma (md5 : Bytes → Bytes) (c : Cfg) (script : Nat → L
     r.outcome = .file big n (if big then none else some (md5 src)) := by
   have hp := prepare_ok c ps big tp hprep
   obtain ⟨_, hpos, _, _, hbig, htp1, htp2⟩ := hp
-  simp only [upload, uploadParts, hprep]
+  have hdig : ∀ rs, digestInput src rs = src := by intro rs; simp [digestInput, Facts.C32.md5ViaTeeReader]
+  simp only [upload, uploadParts, hprep, hdig]
   cases hb : big with
   | true =>
     simp only [if_true]
